@@ -576,4 +576,7 @@ def run(ctx, rep):
     rule_newline(ctx, rep)
     rule_nodrop(ctx, rep)
     rule_linecomment(ctx, rep)
+    # a comment token must be exactly one comment (a pattern that runs on to a later `*)` paints code as comment)
+    from rules import c08_trivia
+    c08_trivia.run_comment(ctx, rep, rid="R-C15-comment")
     # R-C05-noop (column after a comment) is decided under C05
